@@ -23,16 +23,22 @@ META = {
                   'unchanged updates (omit_unchanged_within 0 / longer than the history; the default 0.1 s lies in between) and for any '
                   'pending-error flags at start: struct_members_agree (struct[m] = member m after every operation; every layout: '
                   'read_/write_<struct> both, one of them or none, own read_/write_<m> for any members; any oracle outcome of the driver '
-                  'bodies incl. SECoP errors and arbitrary exceptions at any member position of a struct access), floatenum_consistent '
+                  'bodies incl. SECoP errors and arbitrary exceptions at any member position of a struct access) + '
+                  'struct_update_recovers_members (error states: from any state, an operation that returned and announced a value of the '
+                  'struct leaves no member in error state, whether or not the member value changed), floatenum_consistent '
                   '(value = valuedict[index] after every operation; a write hands the driver an index whose value no other label is closer '
                   'to; a driver-side assignment to the float leaves such an index, however close the assigned value is to the current one) '
                   '+ closest_first_minimum (tie rule of min()) + labels_wellformed / floatenum_consistent_of_labels (the hypotheses about '
                   'valuedict are facts about every label list FloatEnumParam.__init__ accepts), limits_enforced (for every class layout of '
                   'the limit parameters and of programmer-written check_<p> methods along the MRO: an accepted write is inside every limit '
                   'parameter current at that moment whenever the automatic check applies - in particular an inherited check_<p> never '
-                  'switches it off; an inverted limits pair is refused and changes nothing) + limits_enforced_plain, single_controller (per '
-                  'output, any wiring of inputs to several outputs) + takeover_switches_off + outputs_independent + '
-                  'controlled_by_names_active.  Struct parameters also under OVERLAPPING operations of several threads '
+                  'switches it off; an inverted limits pair is refused and changes nothing; for a parameter declared readonly in the '
+                  'class, made writable by the configuration or not, written by a client or by the driver calling write_<p>()) + '
+                  'limits_enforced_plain, single_controller (per output, any wiring of inputs to several outputs; with ANY outcome of '
+                  'the drivers\' set_control_active during every operation - returns, raises before or after marking the module: also '
+                  'after a take-over that failed half-way at most one input is marked and the output names it) + takeover_switches_off '
+                  '(for operations that returned) + outputs_independent + controlled_by_names_active (no direct deactivate_control and '
+                  'no failed operation on that output).  Struct parameters also under OVERLAPPING operations of several threads '
                   '(struct_members_agree_overlapped: a generated read_/write_<struct> of the member-wise layout or a generated member method '
                   'of the combined layout with any assignments of other threads to the struct or to members before each of its steps, any '
                   'values seen by cache reads outside updateLock; the per-thread guard counter of fix 8a147a3 is what it rests on - '
@@ -46,14 +52,20 @@ META = {
     'level_note': 'Trusted: Lean kernel + axioms propext/Classical.choice/Quot.sound; values are exact rationals (integers over a common '
                   'denominator) - binary64 subtraction/comparison is assumed to agree on the generated values; driver method bodies and '
                   'programmer-written check_<p> methods are scripted oracles (value / None / True / SECoP error / ValueError, KeyError, '
-                  'ZeroDivisionError); the conversion of a label text to a number is an oracle (taken from the class itself).',
+                  'ZeroDivisionError), so are the set_control_active methods of controllers (return / raise before / raise after '
+                  'super().set_control_active); the conversion of a label text to a number is an oracle (taken from the class itself).',
     'trusted': [
         'float distance comparison: abs(vdict[i] - x) compared in binary64 agrees with the exact rational comparison on the generated '
         'values (dyadic values and one-ulp / 2^-k neighbours of label values are exact; otherwise the generator keeps x away from near-ties)',
         'FloatRange.validate tolerance band (values outside the range by less than the resolution are clamped) is not modelled; the '
         'generator keeps out-of-range values clearly outside (at every scale)',
         'driver glue: which clause applies to a control operation (take-over by input k / by the output / none) is read off the '
-        'operation and the flags recorded before it; which check_<p> returned True is recorded by the scripted check methods',
+        'operation and the flags recorded before it; the stronger reading (named => marked) is expected of an output until the first '
+        'direct deactivate_control of one of its inputs or the first operation on it that did not return; which check_<p> returned True '
+        'is recorded by the scripted check methods',
+        'error states of struct members: "a value of the struct was announced during the operation" is read off the update messages '
+        'the connection received; "in error state" = readerror set or never announced (the flag the omission of updates consults); for '
+        'overlapping operations the clause is applied to the sequential prefix / tail operations only and is not proved',
         'the two extremes of omit_unchanged_within (0 and 10^6 s) stand for every timing under the default window',
         'overlapping operations: vlib.sched switches threads only at lock / send primitives (and, for a tree whose guard counter is a '
         'plain integer, between its load and its store); what runs under updateLock is atomic for every other thread taking that lock; '
@@ -69,7 +81,11 @@ META = {
         'StructOf / FloatRange / EnumType / LimitsType validation of well-formed values',
     ],
     'assumptions': [
-        'user-written read_/write_/check_ bodies are oracles: they return a value of the datatype, None (True), or raise',
+        'user-written read_/write_/check_ bodies are oracles: they return a value of the datatype, None (True), or raise; a '
+        'set_control_active override marks the module through super() (it returns only after doing so) or raises',
+        'error states of a struct parameter and its members are not linked beyond the recovery clause: an error announced for the struct '
+        'is not propagated to the members nor vice versa (the callbacks do not get along with the extra error argument; by design of '
+        'announceUpdate their exception is swallowed), so a valid struct next to a member in error state is reachable (failed read_<m>)',
         'control_active and controlled_by are changed only through the mixin methods (they are readonly for clients)',
         'float/enum pairs, limits and control hand-over: sequential histories (one request or driver call at a time); struct parameters: '
         'also accesses overlapping with driver-side assignments of other threads (accesses exclude each other through accessLock); '
